@@ -1042,7 +1042,7 @@ def join_atom(kind, q, oq, sb):
     raise ValueError(kind)
 
 
-def run_join(kinds, t, how=0):
+def run_join(kinds, t, how=0, alias=False):
     """Cls.select(<atoms mentioning another class's id / column> AND <tree over the class's own columns>): the ids
     returned must be those of the rows for which SOME row of the other table makes the conjunction true (three-valued).
     Oracle = Python evaluation of the join; independent of the Lean model."""
@@ -1054,7 +1054,10 @@ def run_join(kinds, t, how=0):
         own = [(rid, (a, b, f), ev(t, (a, b, f))) for rid, a, b, f in e['rows']]
     except Overflow:
         return None
-    atoms = [join_atom(k, cls.q, oc.q, sb) for k in kinds]
+    # alias=True: the other class is named through Alias(Other, 'oth_al') — its fields are AliasFields (plain classes only:
+    # on an inheritance child the alias's id is rewritten, open finding C03:inherit-alias-id-rewritten-to-parent-id)
+    oq = sb.Alias(oc, 'oth_al').q if alias else oc.q
+    atoms = [join_atom(k, cls.q, oq, sb) for k in kinds]
     want = set()
     for rid, r, tv in own:
         for o in OTHER_ROWS:
@@ -1079,6 +1082,171 @@ def run_join(kinds, t, how=0):
         return [('join-wrong-rows', 'select(%s AND tree) returned ids %s, the join evaluated in Python selects %s; SQL: %s'
                  % (' AND '.join(kinds), got, want, sql))]
     return []
+
+# --------------------------------------------------------------------------- SQL-text base clauses
+def clause_text(t, style):
+    """SQL text of a tree as a user would write it: style 0 = the rendering with its outer pair of parentheses removed
+    (`(a=1) OR (b=2)`: a top-level operator, the case 529092d repaired), style 1 = the full rendering"""
+    from sqlobject.sqlbuilder import sqlrepr
+    txt = sqlrepr(build_real(t), 'sqlite')
+    if style == 0 and txt.startswith('('):
+        depth_, end = 0, None
+        for i, ch in enumerate(txt):
+            depth_ += ch == '('
+            depth_ -= ch == ')'
+            if depth_ == 0:
+                end = i
+                break
+        if end == len(txt) - 1:
+            txt = txt[1:-1]
+    return txt
+
+
+def run_text_plumbing(tA, style, C, flip=0):
+    """select(<SQL text of A>).filter(C) (and chained / repeated filters, count, connection=) selects exactly the rows
+    on which A and C are both true: the text is ONE operand of the AND that filter() adds."""
+    e = env()
+    cls, conn = e['cls'], e['conn']
+    const = not isinstance(C, tuple)
+    try:
+        va = [ev(tA, (a, b, f)) for _, a, b, f in e['rows']]
+        vc = [truth_of(C) if const else ev(C, (a, b, f)) for _, a, b, f in e['rows']]
+    except Overflow:
+        return None
+    ids = [rid for rid, _, _, _ in e['rows']]
+    only_a = sorted(rid for rid, x in zip(ids, va) if x is True)
+    both = sorted(rid for rid, x, y in zip(ids, va, vc) if and3([x, y]) is True)
+    filt = only_a if (const and C is None) else both
+    try:
+        A = clause_text(tA, style)
+        Cx = C if const else build_real(C, flip)
+    except Exception:
+        return []
+    fails = []
+    label = 'A = text %r, C = %s' % (A, repr(C) if const else ser(C))
+
+    def ids_of(sel):
+        return sorted(o.id for o in sel)
+
+    def check(kind, what, got, want):
+        if got != want:
+            fails.append((kind, '%s returns ids %s, the conditions select %s (%s)' % (what, got[:40], want, label)))
+
+    try:
+        base = cls.select(A)
+        check('text-select', 'select(text)', ids_of(base), only_a)
+        r = base.filter(Cx)
+        check('text-filter', 'select(text).filter(C)', ids_of(r), filt)
+        if r.count() != len(filt):
+            fails.append(('text-filter-count', 'select(text).filter(C).count() is %d, the conditions hold for %d rows (%s); SQL: %s'
+                          % (r.count(), len(filt), label, r)))
+        check('text-filter-twice', 'select(text).filter(C).filter(C)', ids_of(base.filter(Cx).filter(Cx)), filt)
+        check('text-filter-connection', 'select(text, connection=conn).filter(C)', ids_of(cls.select(A, connection=conn).filter(Cx)), filt)
+        check('text-base-after', 'select(text) after .filter(C) was derived from it', ids_of(base), only_a)
+    except Exception as ex:
+        fails.append(('text-error', 'raised %s: %s (%s)' % (type(ex).__name__, ex, label)))
+    return fails
+
+
+TEXT_DIRECTED = [
+    # the repaired case: T.select("(a=1) OR (b=2)").filter(T.q.c == 3) and variants
+    (('or|', ('cmp', 'eq', ('c', 0), ('k', 1)), ('cmp', 'eq', ('c', 1), ('k', 2))), ('cmp', 'eq', ('c', 0), ('k', 0))),
+    (('or|', ('cmp', 'eq', ('c', 0), ('k', 1)), ('cmp', 'eq', ('c', 1), ('k', 2))), ('cmp', 'eq', ('c', 1), ('k', -1))),
+    (('or|', ('eqnone', ('c', 0)), ('cmp', 'gt', ('c', 1), ('k', 0))), ('isnotnull', ('c', 1))),
+    (('OR', [('cmp', 'lt', ('c', 0), ('k', 0)), ('cmp', 'lt', ('c', 1), ('k', 0)), ('isnull', ('c', 0))]), ('cmp', 'ne', ('c', 1), ('k', 2))),
+    (('or|', ('cmp', 'eq', ('c', 0), ('k', 1)), ('cmp', 'eq', ('c', 1), ('k', 2))), False),
+    (('or|', ('cmp', 'eq', ('c', 0), ('k', 1)), ('cmp', 'eq', ('c', 1), ('k', 2))), None),
+    (('and&', ('cmp', 'ge', ('c', 0), ('k', 0)), ('cmp', 'le', ('c', 1), ('k', 1))), ('or|', ('eqnone', ('c', 1)), ('cmp', 'eq', ('c', 0), ('k', 2)))),
+    (('NOT', ('cmp', 'eq', ('c', 0), ('k', 1))), ('cmp', 'eq', ('c', 1), ('k', 2))),
+]
+
+
+# --------------------------------------------------------------------------- directed witnesses
+_fkenv = {}
+
+
+def fk_env():
+    """a class with a ForeignKey (int-keyed target) and an IntCol, an inheritance child with a ForeignKey, and the target"""
+    if not _fkenv:
+        from sqlobject import SQLObject, IntCol, ForeignKey, StringCol
+        from sqlobject.inheritance import InheritableSQLObject
+        conn = sqlo.mem_conn()
+        dept = type(sqlo.uniq('C03Dept'), (SQLObject,), {'_connection': conn, 'n': IntCol(default=None)})
+        plain = type(sqlo.uniq('C03Fk'), (SQLObject,), {'_connection': conn, 'dept': ForeignKey(dept.__name__, default=None),
+                                                        'a': IntCol(default=None)})
+        person = type(sqlo.uniq('C03Person'), (InheritableSQLObject,), {'_connection': conn, 'name': StringCol(default=None)})
+        emp = type(sqlo.uniq('C03Emp'), (person,), {'_connection': conn, 'dept': ForeignKey(dept.__name__, default=None)})
+        for c in (dept, plain, person, emp):
+            c.createTable()
+        for n in (10, 20, 30):
+            dept(n=n)
+        for d in (2, 2, 3, None):
+            emp(name='x', deptID=d)
+            plain(deptID=d, a=d)
+        conn.cache.clear()
+        _fkenv.update(conn=conn, dept=dept, plain=plain, emp=emp, fks=[2, 2, 3, None])
+    return _fkenv
+
+
+def run_directed(ctx, reported):
+    from sqlobject import sqlbuilder as sb
+    from sqlobject.sqlbuilder import sqlrepr
+    fe = fk_env()
+    dept, plain, emp, fks = fe['dept'], fe['plain'], fe['emp'], fe['fks']
+
+    def fail(key, text, case):
+        if key not in reported:
+            reported.add(key)
+            ctx.oracle_fail(key, text, case)
+
+    # (2) `<FK or IntCol column> == <float>`: a fractional float is refused (formencode Invalid), a whole-number float is
+    #     that integer; orderings are not converted.  Either way round (`2.5 == col` is Python's reflected __eq__).
+    def ids_where(pred):
+        return [i + 1 for i, d in enumerate(fks) if d is not None and pred(d)]
+    probes = []
+    for cname, cls, colname in (('fk', plain, 'deptID'), ('intcol', plain, 'a'), ('fk-inherit-child', emp, 'deptID')):
+        col = getattr(cls.q, colname)
+        probes += [
+            (cname, 'col == 2.5', cls, lambda col=col: col == 2.5, 'refused'),
+            (cname, 'col != 2.5', cls, lambda col=col: col != 2.5, 'refused'),
+            (cname, '2.5 == col', cls, lambda col=col: 2.5 == col, 'refused'),
+            (cname, 'col == 2.0', cls, lambda col=col: col == 2.0, ids_where(lambda d: d == 2)),
+            (cname, 'col != -2.0', cls, lambda col=col: col != -2.0, ids_where(lambda d: True)),
+            (cname, '3.0 == col', cls, lambda col=col: 3.0 == col, ids_where(lambda d: d == 3)),
+            (cname, 'col < 2.5', cls, lambda col=col: col < 2.5, ids_where(lambda d: d < 2.5)),
+            (cname, 'col >= 2.5', cls, lambda col=col: col >= 2.5, ids_where(lambda d: d >= 2.5)),
+        ]
+    for cname, label, cls, mk, want in probes:
+        ctx.case('directed float ' + cname + ' ' + label, nontrivial=True, kind='directed')
+        try:
+            expr = mk()
+            got = sorted(o.id for o in cls.select(expr))
+            text = sqlrepr(expr, 'sqlite')
+        except Exception as ex:
+            got, text = ('refused' if type(ex).__name__ == 'Invalid' else 'error:%s' % type(ex).__name__), None
+        if got != want:
+            fail('C03:col-eq-float@%s:%s' % (cname, label),
+                 '%s on a %s column: %s (SQL %s), expected %s' % (label, cname, got, text, want),
+                 {'directed': 'col-eq-float', 'ser': cname + ' ' + label})
+    # (3) OPEN finding: an Alias field's id inside the clause of an inheritance-child select is rewritten to the parent's id
+    d = sb.Alias(dept, 'd')
+    want = [i + 1 for i, x in enumerate(fks) if x is not None]
+    for cname, cls in (('plain', plain), ('inherit-child', emp)):
+        ctx.case('directed alias-join ' + cname, nontrivial=True, kind='directed')
+        try:
+            sel = cls.select(cls.q.deptID == d.q.id)
+            got, sql = sorted(set(o.id for o in sel)), str(sel)
+        except Exception as ex:
+            got, sql = 'error:%s' % type(ex).__name__, None
+        if got != want:
+            if cname == 'inherit-child':
+                fail('C03:inherit-alias-id-rewritten-to-parent-id',
+                     'Employee.select(Employee.q.deptID == Alias(Dept, "d").q.id) returned ids %s, the join selects %s; SQL: %s' % (got, want, sql),
+                     {'directed': 'inherit-alias', 'ser': 'Employee.q.deptID == Alias(Dept).q.id'})
+            else:
+                fail('C03:alias-join-wrong-rows@plain', 'Plain.select(Plain.q.deptID == Alias(Dept, "d").q.id) returned ids %s, the join selects %s; '
+                     'SQL: %s' % (got, want, sql), {'directed': 'plain-alias', 'ser': 'Plain.q.deptID == Alias(Dept).q.id'})
+
 
 # --------------------------------------------------------------------------- generators
 def leaves_num():
@@ -1584,6 +1752,39 @@ def run(ctx):
                 reported.add(('plumbing', kind))
                 ctx.oracle_fail(key, text, {'plumbing': True, 'tree': to_json(ta), 'cond': to_json(cc) if isinstance(cc, tuple) else None,
                                             'const': None if isinstance(cc, tuple) else repr(cc), 'ser': lab, 'cfg': CONFIGS[c]})
+    # SQL-text base clauses (oracle-only): the text is one operand of whatever filter() adds (repaired by 529092d)
+    texts = [(ta, st, cc) for ta, cc in TEXT_DIRECTED for st in (0, 1)]
+    for _ in range(ctx.budget(120, 2500)):
+        root = ctx.rng.choice(['or|', 'or|', 'and&', 'OR', None])
+        if root in ('or|', 'and&'):
+            ta = (root, rnd_bool(ctx.rng, ctx.rng.choice([1, 1, 2])), rnd_bool(ctx.rng, ctx.rng.choice([1, 1, 2])))
+        elif root == 'OR':
+            ta = ('OR', [rnd_bool(ctx.rng, 1) for _ in range(ctx.rng.choice([2, 3]))])
+        else:
+            ta = rnd_bool(ctx.rng, ctx.rng.choice([1, 2, 3]))
+        cc = ctx.rng.choice(PYCONSTS) if ctx.rng.random() < 0.25 else rnd_bool(ctx.rng, ctx.rng.choice([1, 1, 2]))
+        texts.append((ta, ctx.rng.choice([0, 0, 1]), cc))
+    for i, (ta, st, cc) in enumerate(texts):
+        if has_sub(ta) or refused(ta) or (isinstance(cc, tuple) and (has_sub(cc) or refused(cc))):
+            continue
+        c = i % (ncfg - 1)          # not the inheritance pair: a text clause cannot tell select() which tables it names
+        set_cfg(c)
+        fails = run_text_plumbing(ta, st, cc, flip=i)
+        lab = 'text%d %s / %s' % (st, ser(ta), ser(cc) if isinstance(cc, tuple) else 'const ' + repr(cc))
+        ctx.case('plumbing ' + lab + ' @' + CONFIGS[c], nontrivial=True, kind='plumbing-text')
+        if fails is None:
+            ctx.count('skipped:int64-overflow')
+            continue
+        if fails:
+            kind, text = fails[0]
+            key = 'C03:plumbing-%s:%s' % (kind, lab)
+            if ('plumbing', kind) not in reported:
+                reported.add(('plumbing', kind))
+                ctx.oracle_fail(key, text, {'textplumbing': True, 'tree': to_json(ta), 'style': st,
+                                            'cond': to_json(cc) if isinstance(cc, tuple) else None,
+                                            'const': None if isinstance(cc, tuple) else repr(cc), 'ser': lab, 'cfg': CONFIGS[c]})
+    # directed witnesses: FK / IntCol == float, Alias join on a plain class, the open inheritance-alias finding
+    run_directed(ctx, reported)
     # directed probe (note): a child-table column that occurs only inside an IN-list is invisible to tablesUsed
     # two-table stream: a clause that also names the id / a column of ANOTHER class (join condition), selected on a plain
     # class and on the inheritance child (whose select rewrites its OWN `q.id` to the parent's)
@@ -1599,18 +1800,20 @@ def run(ctx):
             if cname == 'inherit' and child_only_in_lists(t):
                 continue
             set_cfg(CONFIGS.index(cname))
-            fails = run_join(ks, t, how=i % 2)
-            ctx.case('join ' + '+'.join(ks) + ' / ' + ser(t) + ' @' + cname, nontrivial=True, kind='join')
+            al = cname == 'dbname' and i % 3 != 0
+            fails = run_join(ks, t, how=i % 2, alias=al)
+            ctx.case('join ' + '+'.join(ks) + ' / ' + ser(t) + ' @' + cname + ('+alias' if al else ''), nontrivial=True,
+                     kind='join' + ('-alias' if al else ''))
             if fails is None:
                 ctx.count('skipped:int64-overflow')
                 continue
             if fails:
                 kind, text = fails[0]
-                key = 'C03:%s@%s:%s' % (kind, cname, '+'.join(ks))
+                key = 'C03:%s@%s%s:%s' % (kind, cname, '+alias' if al else '', '+'.join(ks))
                 if key not in reported:
                     reported.add(key)
-                    ctx.oracle_fail(key, text + ' [class configuration: %s]' % cname,
-                                    {'join': ks, 'tree': to_json(t), 'how': i % 2, 'ser': ser(t), 'cfg': cname})
+                    ctx.oracle_fail(key, text + ' [class configuration: %s%s]' % (cname, ', other class through Alias' if al else ''),
+                                    {'join': ks, 'tree': to_json(t), 'how': i % 2, 'alias': al, 'ser': ser(t), 'cfg': cname})
     set_cfg(0)
     set_cfg(CONFIGS.index('inherit'))
     w = ('in', ('k', 1), [('c', 1)])
@@ -1642,6 +1845,26 @@ def replay(case):
     env()
     if case.get('cfg') in CONFIGS:
         set_cfg(CONFIGS.index(case['cfg']))
+    if case.get('directed'):
+        class _Ctx(object):
+            fails = []
+
+            def case(self, *a, **k):
+                pass
+
+            def oracle_fail(self, key, text, case_):
+                self.fails.append('%s: %s' % (key, text))
+        c_ = _Ctx()
+        run_directed(c_, set())
+        mine = [f for f in c_.fails if case.get('ser', '') in f or case['directed'] in ('inherit-alias', 'plain-alias')]
+        return not mine, '\n'.join(mine) or 'the directed witnesses pass'
+    if case.get('textplumbing'):
+        cc = from_json(case['cond']) if case.get('cond') is not None else eval(case['const'], {'__builtins__': {}}, {})
+        fails = run_text_plumbing(from_json(case['tree']), case['style'], cc)
+        text = 'class configuration: %s\n%s\n' % (case.get('cfg'), case.get('ser'))
+        if fails:
+            text += '\n'.join('%s: %s' % f for f in fails)
+        return not fails, text
     if case.get('plumbing'):
         ta = None if case['tree'] is None else from_json(case['tree'])
         cc = from_json(case['cond']) if case.get('cond') is not None else eval(case['const'], {'__builtins__': {}}, {})
